@@ -583,6 +583,9 @@ class Engine:
             elif key.startswith('break@'):
                 if key[6:] not in loops:
                     out.append('loop %s' % key[6:])
+            elif key.startswith('after:'):
+                if key[6:] not in assigned:
+                    out.append('local %s' % key[6:])
             elif not ret_ok(key):
                 out.append('site %s' % key)
         for key in con.ghost_before:
@@ -706,6 +709,31 @@ class Engine:
                 self.frames[-1].old = saved
 
     # -------------------------------------------------------------- statements
+    def lemmas_after(self, s, st):
+        """contract key 'after:<local>': intermediate lemmas.  After every assignment to that local (top frame) each clause is OBLIGED in the current state and then ASSUMED
+        (assert-then-assume), so that the obligations that follow can use it as a hypothesis instead of re-deriving it"""
+        fr = self.frames[-1]
+        if len(self.frames) != 1 or fr.contract is None:
+            return
+        keys = [k for k in fr.contract.asserts if k.startswith('after:')]
+        if not keys:
+            return
+        names = assigned_names([s])
+        for k in keys:
+            if k[6:] in names:
+                for c in fr.contract.asserts[k]:
+                    v = self.eval_clause(c, st, fr.old)
+                    self.oblige(st, v, 'assert', c.label, c.tags, s.lineno, site='after %s@%d' % (k[6:], self.site_count(fr, k, s.lineno)))
+                    if not is_unk(v):
+                        st.assume(self.dom.truth(v, st))
+
+    def site_count(self, fr, key, lineno):
+        d = fr.__dict__.setdefault('_after_sites', {})
+        lst = d.setdefault(key, [])
+        if lineno not in lst:
+            lst.append(lineno)
+        return lst.index(lineno) + 1
+
     def run_block(self, stmts, st, ctl):
         for s in stmts:
             if st is None:
@@ -740,12 +768,14 @@ class Engine:
                     if nm in names:
                         for path, ex in gl:
                             self.ghost_assign(path, ex, st, fr.old)
+            self.lemmas_after(s, st)
             return st
         if isinstance(s, ast.AugAssign):
             cur = self.ev(s.target, st)
             inc = self.ev(s.value, st)
             v = d.augassign(BINOPS.get(type(s.op), '?'), cur, inc, st, s)
             self.assign(s.target, v, st, aug=True)
+            self.lemmas_after(s, st)
             return st
         if isinstance(s, ast.If):
             c = d.truth(self.ev(s.test, st), st)
